@@ -9,7 +9,7 @@ pub fn info() -> PropInfo {
     PropInfo {
         id: "C05",
         level: "exploration",
-        rule: "proptest: claims x strategy (Custom incl. non-existent, always-visible, malformed and '$.'-less paths) x decoys x format x holder key; oracle: independent decoding of the issued string (own base64/SHA-256/JSON walk): reconstruction == claims, hidden set == mark(U,strategy), clear-text skeleton == always-visible part, each disclosure referenced exactly once, _sd_alg, cnf, decoy placement. Non-trivial: >= 1 hidden and >= 1 visible claim, or a refused '$.'-less path. Distinct: hash of the case JSON.",
+        rule: "proptest: claims x strategy (Custom incl. non-existent, always-visible, malformed and '$.'-less paths) x decoys x format x holder key; oracle: independent decoding of the issued string (own base64/SHA-256/JSON walk): reconstruction == claims, hidden set == mark(U,strategy), clear-text skeleton == always-visible part, each disclosure referenced exactly once, _sd_alg, cnf, decoy placement. Non-trivial: >= 1 hidden and >= 1 visible claim, or a refused '$.'-less path. Distinct: hash of the case JSON. One case in nine: an earlier issuance on another issuer instance of the same thread that fails at the signature (algorithm name not fitting the key / unknown).",
         assumptions: &[
             "Custom strategies are only combined with member names that are non-empty and free of '.' and '[' (C05's stated precondition)",
             "serde_json / base64 / sha2 are shared with the library (trusted base)",
@@ -35,9 +35,10 @@ pub fn strategy() -> BoxedStrategy<Case> {
             Some(s)
         }),
     ];
-    let normal = (issue_spec_strategy(ClaimCfg::FULL, ALL_PATHS, holder_strategy()), prelude).prop_map(|(issue, prelude)| C05Case { issue, prelude });
+    // a valid prelude is, one time in three, made on another issuer instance whose call fails at the signature
+    let normal = (issue_spec_strategy(ClaimCfg::FULL, ALL_PATHS, holder_strategy()), prelude, 0u8..6).prop_map(|(issue, prelude, f)| C05Case { issue, prelude, prelude_fails_at_signature: if f < 4 { 0 } else { f - 3 } });
     // one case in ~3000: an array of more than 2^16 elements, a few of them hidden
-    prop_oneof![3000 => normal, 1 => huge_array_issue_spec().prop_map(|issue| C05Case { issue, prelude: None })].boxed()
+    prop_oneof![3000 => normal, 1 => huge_array_issue_spec().prop_map(|issue| C05Case { issue, prelude: None, prelude_fails_at_signature: 0 })].boxed()
 }
 
 pub fn plan(tier: Tier) -> Plan<Case> {
